@@ -42,7 +42,7 @@ def hostile(args):
                     w.request(cid, rid)
             n = rnd.randint(0, kw.get("rate", 12))
             for _ in range(n):
-                kind = rnd.choice(["random", "random", "hdr-garbage", "crc-hello", "trunc", "oversize", "spoof-hello", "from-client-addr", "hdr-from-client-addr", "blocked"])
+                kind = rnd.choice(["random", "random", "hdr-garbage", "crc-hello", "trunc", "oversize", "spoof-hello", "short-hello", "from-client-addr", "hdr-from-client-addr", "blocked"])
                 src = ("6.6.%d.%d" % (rnd.randint(0, 255), rnd.randint(0, 255)), rnd.randint(1, 65000))
                 if kind == "random":
                     d = bytes(rnd.getrandbits(8) for _ in range(rnd.choice(lengths)))
@@ -67,6 +67,18 @@ def hostile(args):
                     if not hellos:
                         continue
                     d = rnd.choice(hellos)
+                elif kind == "short-hello":
+                    # a hello that is well formed in every respect (valid key, version, header length field, CRC) except that most of its padding is missing:
+                    # the padding is what keeps the reply smaller than the request
+                    hellos = [x for ds in w.seen_from.values() for x in ds if len(x) > 12 and x[12] == 1]
+                    if not hellos:
+                        continue
+                    g = rnd.choice(hellos)
+                    keep = rnd.choice([100, 110, 130, 166, 200, 300, 330, 600])
+                    body = bytearray(g[:20 + keep])
+                    body[13:15] = struct.pack(">H", keep)
+                    body[23:25] = struct.pack(">H", keep - 5)          # the single message inside: seq(2) type(1) length(2) payload
+                    d = bytes(body) + struct.pack(">L", crc32(bytes(body)))
                 elif kind == "hdr-from-client-addr":
                     # spoofed source = an established client; well-formed header (any type, any sequence / ack numbers), garbage body
                     body = bytes(rnd.getrandbits(8) for _ in range(rnd.randint(16, 120)))
